@@ -243,6 +243,39 @@ func c18MiscCases(rng *rand.Rand) []c18Case {
 		}
 		out = append(out, c18Case{setup, a, "bitfield-multi"})
 	}
+	// BITCOUNT / BITPOS over longer strings (word-at-a-time loops have their boundaries at 8, 16, 24 ... bytes)
+	for _, L := range []int{7, 8, 9, 10, 15, 16, 17, 18, 24, 25, 26, 33, 64, 65} {
+		for variant := 0; variant < 3; variant++ {
+			b := make([]byte, L)
+			for j := range b {
+				switch variant {
+				case 0:
+					b[j] = 0xff
+				case 1:
+					b[j] = byte(rng.Intn(256))
+				case 2:
+					b[j] = []byte{0x00, 0xff, 0x80, 0x01}[rng.Intn(4)]
+				}
+			}
+			setup := [][]string{{"SET", "b0", string(b)}}
+			out = append(out, c18Case{setup, []string{"BITCOUNT", "b0"}, "bitcount-long"}, c18Case{setup, []string{"BITCOUNT", "b0", "0", "-1", "BIT"}, "bitcount-long"}, c18Case{setup, []string{"BITPOS", "b0", "0"}, "bitpos-long"})
+			for k := 0; k < 14; k++ {
+				unit, u := "BIT", 8
+				if k%3 == 0 {
+					unit, u = "BYTE", 1
+				}
+				st, en := rng.Intn(L*u+4)-2, rng.Intn(L*u+4)-2
+				if k%4 == 1 {
+					st, en = -rng.Intn(L*u+2), -1-rng.Intn(3)
+				}
+				if k%5 == 2 {
+					st, en = rng.Intn(8), L*u-1-rng.Intn(8) // nearly the whole string
+				}
+				out = append(out, c18Case{setup, []string{"BITCOUNT", "b0", strconv.Itoa(st), strconv.Itoa(en), unit}, "bitcount-long"},
+					c18Case{setup, []string{"BITPOS", "b0", strconv.Itoa(k % 2), strconv.Itoa(st), strconv.Itoa(en), unit}, "bitpos-long"})
+			}
+		}
+	}
 	// several OVERFLOW directives in one command: each applies to the operations after it, also when it switches back to WRAP
 	for _, m1 := range []string{"WRAP", "SAT", "FAIL"} {
 		for _, m2 := range []string{"WRAP", "SAT", "FAIL"} {
